@@ -1254,6 +1254,26 @@ func c02Lists(c *Ctx, ro *ParserRoles) {
 				if calleeOf(call) == ro.ParseToken {
 					consumed = true
 				}
+				// ... or through the optional-token helper: handed a constant kind, it consumes a token node exactly
+				// when the current token is that kind (decided by folding the helper itself)
+				if g := calleeOf(call); g != nil && g != ro.ParseToken && c.inModule(g) && len(g.Blocks) > 0 {
+					args := recvArgs(g)
+					okArgs := true
+					for _, a := range call.Common().Args[len(args):] {
+						if n, isK := constIntArg(a); isK {
+							args = append(args, constLV(constant.MakeInt64(n)))
+						} else {
+							okArgs = false
+						}
+					}
+					if okArgs && len(args) == len(g.Params) && len(args) > len(recvArgs(g)) {
+						for _, c2 := range c.tokenFolder(k).Fold(g, args).ReachableCalls() {
+							if calleeOf(c2) == ro.ParseToken {
+								consumed = true
+							}
+						}
+					}
+				}
 			}
 			c.R.Check(rule, "spread-token:"+c.SKName(k), c.P.InstrPos(listCall), consumed == (k == ddd), fmt.Sprintf("after the argument list a token node is consumed for %s = %v; only `...` may be taken as the spread marker", c.SKName(k), consumed))
 		}
